@@ -17,11 +17,21 @@ import (
 
 // Instrument writes instrumented copies of files into outDir and an overlay.json mapping the
 // original paths to them; extra maps further virtual paths to real files.
-func Instrument(outDir string, files []string, extra map[string]string) (string, error) {
+//
+// srcOf optionally names, per original path, another file whose contents stand in for it (a
+// seeded change tested without touching /repo).
+func Instrument(outDir string, files []string, extra map[string]string, srcOf map[string]string) (string, error) {
 	overlay := map[string]string{}
+	for k, v := range srcOf {
+		overlay[k] = v
+	}
 	for i, f := range files {
 		dst := filepath.Join(outDir, fmt.Sprintf("f%d_%s", i, filepath.Base(f)))
-		if err := instrument(f, dst); err != nil {
+		src := f
+		if alt, ok := srcOf[f]; ok {
+			src = alt
+		}
+		if err := instrumentAs(src, f, dst); err != nil {
 			return "", fmt.Errorf("vinstr: %s: %v", f, err)
 		}
 		overlay[f] = dst
@@ -177,9 +187,17 @@ func instrList(fset *token.FileSet, list []ast.Stmt, n *int) []ast.Stmt {
 	return out
 }
 
-func instrument(src, dst string) error {
+func instrument(src, dst string) error { return instrumentAs(src, src, dst) }
+
+// instrumentAs instruments the contents of src as if they were the file named as (positions in
+// yield ids use that name).
+func instrumentAs(src, as, dst string) error {
 	fset := token.NewFileSet()
-	f, err := parser.ParseFile(fset, src, nil, parser.ParseComments)
+	content, err := os.ReadFile(src)
+	if err != nil {
+		return err
+	}
+	f, err := parser.ParseFile(fset, as, content, parser.ParseComments)
 	if err != nil {
 		return err
 	}
